@@ -2,14 +2,46 @@
 
 import os
 import reprlib
-from typing import TypeVar, Callable, Any  # pylint: disable=unused-import
+from typing import TypeVar, Callable, Any, Iterable, List  # pylint: disable=unused-import
+
+
+def _in_reproducible_order(items: Iterable[Any]) -> List[Any]:
+    """Order the items of a set so that the order does not depend on the hash seed of the interpreter."""
+    try:
+        return sorted(items)
+    except Exception:  # pylint: disable=broad-except
+        pass
+
+    # The items can not be compared with each other (*e.g.*, strings and numbers).
+    try:
+        return sorted(items, key=lambda item: (type(item).__name__, repr(item)))
+    except Exception:  # pylint: disable=broad-except
+        return list(items)
+
+
+class _ReproducibleRepr(reprlib.Repr):
+    """
+    Represent the values like ``reprlib.Repr``, but independently of the hash seed of the interpreter.
+
+    ``reprlib`` sorts the items of a set only if they can be compared with each other and shows them in the order
+    of the iteration otherwise. That order changes from one run of the program to the next.
+    """
+
+    def repr_set(self, x: Any, level: int) -> str:
+        """Represent the set with its items in a reproducible order."""
+        return super().repr_set(_in_reproducible_order(x), level)  # type: ignore
+
+    def repr_frozenset(self, x: Any, level: int) -> str:
+        """Represent the frozen set with its items in a reproducible order."""
+        return super().repr_frozenset(_in_reproducible_order(x), level)  # type: ignore
+
 
 # Default representation instance.
 #
 # The limits are set way higher than reprlib.aRepr since the default reprlib limits are not suitable for
 # the production systems.
 
-aRepr = reprlib.Repr()  # pylint: disable=invalid-name
+aRepr = _ReproducibleRepr()  # pylint: disable=invalid-name
 aRepr.maxdict = 50
 aRepr.maxlist = 50
 aRepr.maxtuple = 50
